@@ -180,6 +180,13 @@ func (db *SpecDB) LoadFile(path, pkgPath, prefix string) {
 			cur = nil
 		case "spec":
 			// spec func name(params) ret = body     |  spec func name(params) ret   (uninterpreted)
+			// "spec opaque func ..." : the definition is given to the solver as a function symbol with a triggered defining axiom
+			// instead of a macro, so that quantified facts about it can be instantiated by matching on its applications
+			opaque := false
+			if strings.HasPrefix(rest, "opaque ") {
+				opaque = true
+				rest = strings.TrimSpace(strings.TrimPrefix(rest, "opaque "))
+			}
 			m := regexp.MustCompile(`^func\s+(\w+)\s*\(([^)]*)\)\s*([\w\[\]\.\*/\-]+)\s*(=\s*(.*))?$`).FindStringSubmatch(rest)
 			if m == nil {
 				db.errf(path, rl.line, "bad spec func: %s", rest)
@@ -190,7 +197,7 @@ func (db *SpecDB) LoadFile(path, pkgPath, prefix string) {
 				db.errf(path, rl.line, "%v", err)
 				continue
 			}
-			sf := &SpecFunc{Name: m[1], Params: bs, Ret: m[3], Text: m[5], Pkg: pkgPath}
+			sf := &SpecFunc{Name: m[1], Params: bs, Ret: m[3], Text: m[5], Pkg: pkgPath, Opaque: opaque}
 			if m[5] != "" {
 				e, err := ParseExpr(m[5])
 				if err != nil {
@@ -419,10 +426,11 @@ func qualifyKey(key, pkg string) string {
 		}
 		return "(" + star + recv + ")" + rest
 	}
-	if strings.Contains(key, "/") || strings.Count(key, ".") > 0 && !strings.HasPrefix(key, "init") {
-		if strings.Contains(key, "/") {
-			return key
-		}
+	if strings.Contains(key, "/") {
+		return key
+	}
+	if i := strings.Index(key, "."); i > 0 && !strings.HasPrefix(key, "init") && !strings.Contains(key[:i], "$") {
+		return key // a standard-library function such as sort.Slice (package-local functions have no dot)
 	}
 	return pkg + "." + key
 }
